@@ -195,7 +195,7 @@ def run_shard(shard, tier):
                 model_opts["case_insensitive"] = True
             if isinstance(copts.get("addition"), type) and ri is not None:
                 continue
-            for items in M.inputs_for(fields, bool(model_opts.get("case_insensitive")), tier):
+            for items in M.inputs_for(fields, bool(model_opts.get("case_insensitive")), tier, gen="alias_from_generator" in copts):
                 _one_case(acc, base, tags, fields, cls, src, cexpr, rexpr, model_opts, items)
         try:
             from utype.parser import base as _pb
